@@ -50,6 +50,24 @@ def decodeRune (p : Bytes) : Nat × Nat :=
                     if !isCont b3 then (runeError, 1)
                     else ((p0 % 8) * 262144 + (b1 % 64) * 4096 + (b2 % 64) * 64 + (b3 % 64), 4)
 
+/-- Go's `utf8.FullRune`: does `p` begin with a full encoding of a rune
+(an invalid encoding counts as a full width-1 error rune) -/
+def fullRune (p : Bytes) : Bool :=
+  match p with
+  | [] => false
+  | p0 :: rest =>
+    match lead p0 with
+    | none => true
+    | some (sz, lo, hi) =>
+      if p.length ≥ sz then true
+      else match rest with
+        | [] => false
+        | b1 :: rest1 =>
+          if b1 < lo || hi < b1 then true
+          else match rest1 with
+            | [] => false
+            | b2 :: _ => !isCont b2
+
 /-- Go's `utf8.EncodeRune` for valid scalars; invalid values (surrogates, > 0x10FFFF)
 encode U+FFFD like Go. -/
 def encodeRune (r : Nat) : Bytes :=
